@@ -60,6 +60,11 @@ type T struct {
 	wakeAt   int64
 	done     chan struct{} // closed at thread end: a real happens-before edge for the final reads only
 	Panic    string
+	// task threads (TaskRunner tasks registered through vhook.Spawn)
+	parent    *T
+	live      int // unfinished tasks spawned by this thread
+	hold      int // > 0: holds a real sop mutex across scheduling points, must not be parked
+	waitBelow int // > 0: parked until live < waitBelow (join: 1; concurrency limit k: k)
 }
 
 type decision struct {
@@ -79,13 +84,23 @@ type X struct {
 	cur       *T
 	Deadlock  bool
 	Switches  int
+	Tasks     int // task threads spawned
 	classes   map[string]bool
 }
 
 type Scenario struct {
 	Classes []string
 	Epoch   time.Time
-	Setup   func(x *X) []func(ctx context.Context)
+	// FreeTasks: sop.TaskRunner tasks run on their own goroutines, free-running and concurrently with each other
+	// and with the thread that spawned them (which waits for them with real synchronisation), instead of inline.
+	// The detector then also judges the accesses of sibling tasks (happens-before based, so independent of how
+	// the OS interleaves them); their operations are not scheduling points.
+	FreeTasks bool
+	// TaskThreads: sop.TaskRunner tasks become threads of this scheduler (spawned with a real go statement and
+	// joined with the real errgroup wait, so exactly production's happens-before edges exist between a task
+	// and its spawner); every interleaving of sibling tasks within the deviation bound is explored.
+	TaskThreads bool
+	Setup       func(x *X) []func(ctx context.Context)
 	// Teardown runs after every thread has ended and been joined with a real synchronisation.
 	Teardown func(x *X)
 }
@@ -118,7 +133,7 @@ func (x *X) point(class, label string) {
 		return
 	}
 	t := x.self()
-	if t == nil || t.finished {
+	if t == nil || t.finished || t.hold > 0 {
 		return
 	}
 	x.Trace = append(x.Trace, fmt.Sprintf("%d:%s:%s", t.ID, class, label))
@@ -131,6 +146,10 @@ func (x *X) sleep(ctx context.Context, d time.Duration) bool {
 	t := x.self()
 	if t == nil || t.finished {
 		return false
+	}
+	if t.hold > 0 {
+		x.clock += int64(d)
+		return true
 	}
 	t.sleeping = true
 	t.wakeAt = x.clock + int64(d)
@@ -150,6 +169,73 @@ func (x *X) finish(t *T) {
 	t.finished = true
 }
 
+//go:norace
+func (t *T) root() *T {
+	for t.parent != nil {
+		t = t.parent
+	}
+	return t
+}
+
+//go:norace
+func (x *X) holdMark(delta int) {
+	if t := x.self(); t != nil {
+		t.hold += delta
+	}
+}
+
+type taskHandle struct {
+	x *X
+	t *T
+}
+
+// spawn registers a TaskRunner task of the calling thread as a new thread (runnable at once; its goroutine is
+// started by the caller's real go statement right after this returns and parks in Start until scheduled).
+//
+//go:norace
+func (x *X) spawn(limit int) vhook.TaskHandle {
+	p := x.self()
+	if p == nil || p.finished {
+		return nil
+	}
+	if limit > 0 && p.live >= limit {
+		p.waitBelow = limit
+		x.main.signal(byte(p.ID))
+		p.p.wait()
+	}
+	t := &T{ID: len(x.threads), p: mkpipe(), done: make(chan struct{}), parent: p}
+	x.threads = append(x.threads, t)
+	p.live++
+	x.Tasks++
+	return &taskHandle{x, t}
+}
+
+// join parks the calling thread until all its tasks have ended.
+//
+//go:norace
+func (x *X) join() {
+	p := x.self()
+	if p == nil || p.finished || p.live == 0 {
+		return
+	}
+	p.waitBelow = 1
+	x.main.signal(byte(p.ID))
+	p.p.wait()
+}
+
+//go:norace
+func (h *taskHandle) Start() {
+	h.t.gid = gid()
+	h.t.p.wait()
+}
+
+//go:norace
+func (h *taskHandle) End() {
+	h.t.finished = true
+	h.t.parent.live--
+	h.x.main.signal(byte(h.t.ID))
+}
+
 // Run executes one schedule: replays prefix then takes the default choice.
 //
 //go:norace
@@ -158,7 +244,12 @@ func Run(sc *Scenario, prefix []int) *X {
 	for _, c := range sc.Classes {
 		x.classes[c] = true
 	}
-	vhook.Install(&vhook.Hooks{Inline: true, Point: x.point, Sleep: x.sleep, Now: x.now})
+	hooks := &vhook.Hooks{Inline: !sc.FreeTasks && !sc.TaskThreads, Point: x.point, Sleep: x.sleep, Now: x.now}
+	hooks.Hold = x.holdMark
+	if sc.TaskThreads {
+		hooks.Spawn, hooks.Join = x.spawn, x.join
+	}
+	vhook.Install(hooks)
 	defer vhook.Uninstall()
 	bodies := sc.Setup(x)
 	for i := range bodies {
@@ -181,6 +272,12 @@ func Run(sc *Scenario, prefix []int) *X {
 				continue
 			}
 			unfinished++
+			if t.waitBelow > 0 {
+				if t.live >= t.waitBelow {
+					continue // parked until enough of its tasks have ended
+				}
+				t.waitBelow = 0
+			}
 			if t.sleeping {
 				sleepers = append(sleepers, t)
 			} else {
@@ -197,21 +294,50 @@ func Run(sc *Scenario, prefix []int) *X {
 		}
 		var options []*T
 		var costs []int
-		curRunnable := x.cur != nil && !x.cur.finished && !x.cur.sleeping
+		curRunnable := x.cur != nil && !x.cur.finished && !x.cur.sleeping && x.cur.waitBelow == 0
 		if curRunnable {
 			options = append(options, x.cur)
 			costs = append(costs, 0)
 		}
+		// A transaction thread and the tasks it spawned form a group. Default: stay in the group of the thread that
+		// ran last while that group has a runnable thread (tasks in spawn order); leaving it, or picking a task out
+		// of spawn order, is a deviation. When the group has nothing runnable, the first runnable thread of every
+		// other group is a free choice.
+		var curGroup *T
+		if x.cur != nil {
+			curGroup = x.cur.root()
+		}
+		groupRunnable := false
 		for _, t := range runnable {
-			if t == x.cur {
-				continue
+			if t != x.cur && t.root() == curGroup {
+				groupRunnable = true
 			}
+		}
+		seenGroup := map[*T]bool{}
+		var ordered []*T // same group first, so that the default choice (index 0) is free
+		for _, t := range runnable {
+			if t != x.cur && t.root() == curGroup {
+				ordered = append(ordered, t)
+			}
+		}
+		for _, t := range runnable {
+			if t != x.cur && t.root() != curGroup {
+				ordered = append(ordered, t)
+			}
+		}
+		for _, t := range ordered {
+			c := 0
+			switch {
+			case curRunnable:
+				c = 1
+			case groupRunnable && t.root() != curGroup:
+				c = 1
+			case seenGroup[t.root()]:
+				c = 1
+			}
+			seenGroup[t.root()] = true
 			options = append(options, t)
-			if curRunnable {
-				costs = append(costs, 1)
-			} else {
-				costs = append(costs, 0)
-			}
+			costs = append(costs, c)
 		}
 		for i, t := range sleepers {
 			options = append(options, t)
@@ -254,7 +380,7 @@ func Run(sc *Scenario, prefix []int) *X {
 	}
 	// join with a real synchronisation before the harness reads what the threads produced
 	for _, t := range x.threads {
-		if t.finished {
+		if t.finished && t.parent == nil {
 			<-t.done
 		}
 		t.p.close()
